@@ -2,8 +2,9 @@ import Cutadapt.Proofs.IndexSphere
 import Cutadapt.Proofs.IndexEnv
 import Cutadapt.Proofs.IndexFold
 import Cutadapt.Proofs.IndexLookup
-/-! Equally long adapters without indels: when no two admissible adapters are equally close to the read's affix, the
-    index reports the nearest admissible adapter (the positive counterpart of the "uncleared tie" defect). -/
+import Cutadapt.Proofs.IndexLengths
+/-! Equally long adapters without indels: the index reports the admissible adapter that is strictly nearest to the
+    read's affix (ties between worse candidates do not matter any more: the mark is cleared by a better offer). -/
 namespace Cutadapt.Index
 open Cutadapt Cutadapt.Adapters
 
@@ -134,7 +135,9 @@ theorem addEntry_lengths_false {D : Type} (ops : DictOps D) (ai : Nat) (st : Bui
   split
   · split
     · rfl
-    · split <;> rfl
+    · split
+      · rfl
+      · split <;> rfl
   · rfl
 
 theorem foldl_addEntry_lengths_false {D : Type} (ops : DictOps D) (ai : Nat) (items : List (Bytes × Nat × Nat)) :
@@ -142,26 +145,6 @@ theorem foldl_addEntry_lengths_false {D : Type} (ops : DictOps D) (ai : Nat) (it
   induction items with
   | nil => intro st; rfl
   | cons it rest ih => intro st; simp only [List.foldl_cons, ih, addEntry_lengths_false]
-
-theorem setAdd_mem (l : List Nat) (x y : Nat) : y ∈ setAdd l x ↔ y = x ∨ y ∈ l := by
-  unfold setAdd
-  split
-  · rename_i h
-    have hx : x ∈ l := by simpa using h
-    constructor
-    · intro hy; exact Or.inr hy
-    · rintro (rfl | hy)
-      · exact hx
-      · exact hy
-  · simp
-
-theorem setAdd_nodup (l : List Nat) (x : Nat) (h : l.Nodup) : (setAdd l x).Nodup := by
-  unfold setAdd
-  split
-  · exact h
-  · rename_i hc
-    have hx : x ∉ l := by simpa using hc
-    exact List.nodup_cons.mpr ⟨hx, h⟩
 
 theorem foldl_addAdapter_lengths {D : Type} (ops : DictOps D) (L : Nat) (l : List (Adapter × Nat))
     (hl : ∀ p ∈ l, p.1.indels = false ∧ p.1.seq.length = L) : ∀ st : Build D,
@@ -263,14 +246,17 @@ theorem offers_complete (adapters : List Adapter) (s : Bytes) (i : Nat) (a : Ada
   rw [items_noindel_mem a hi]
   exact ⟨hadm.2, (hammingSphere_spec a.seq _ ha s).mpr ⟨hlen, hs, rfl⟩, rfl⟩
 
+theorem two_le_length {α : Type} (l : List α) (h : 2 ≤ l.length) : ∃ x y rest, l = x :: y :: rest := by
+  match l, h with
+  | x :: y :: rest, _ => exact ⟨x, y, rest, rfl⟩
+
 /-- the entry of the final index for `s` -/
 theorem nearest_entry {D : Type} (ops : DictOps D) (hlaw : ops.Lawful) (adapters : List Adapter) (isPrefix : Bool) (L : Nat)
     (hl : ∀ a ∈ adapters, (∀ c ∈ a.seq, c ∈ acgt) ∧ a.seq.length = L ∧ a.indels = false)
     (s : Bytes) (hs : ∀ c ∈ s, c ∈ acgt) (hsl : s.length = L)
     (i : Nat) (a : Adapter) (hadm : Admissible adapters s i a)
-    (hnear : ∀ j b, Admissible adapters s j b → Spec.hamming (· == ·) s a.seq ≤ Spec.hamming (· == ·) s b.seq)
-    (hdistinct : ∀ j j' b b', Admissible adapters s j b → Admissible adapters s j' b' →
-      Spec.hamming (· == ·) s b.seq = Spec.hamming (· == ·) s b'.seq → j = j') :
+    (hstrict : ∀ j b, Admissible adapters s j b → j ≠ i →
+      Spec.hamming (· == ·) s a.seq < Spec.hamming (· == ·) s b.seq) :
     ops.get? (makeIndex ops adapters isPrefix).index s =
       some (i, Spec.hamming (· == ·) s a.seq, L - Spec.hamming (· == ·) s a.seq) := by
   obtain ⟨hacgt, hlen, hi⟩ := hl a (List.mem_of_getElem? hadm.1)
@@ -278,26 +264,15 @@ theorem nearest_entry {D : Type} (ops : DictOps D) (hlaw : ops.Lawful) (adapters
   have hpw := forKey_pairwise_ai adapters hall s
   have hmine := offers_complete adapters s i a hacgt hi hs (by omega) hadm
   rw [hlen] at hmine
-  -- never marked ambiguous
-  have hamb : (keyState (forKey s (events adapters))).2 = false := by
-    cases hb : (keyState (forKey s (events adapters))).2 with
-    | false => rfl
-    | true =>
-      exfalso
-      obtain ⟨pre, ev, post, hsplit, oa, oe, hx⟩ := (keyState_amb_iff _).mp hb
-      obtain ⟨ev0, hm0, hai0, _, hmm⟩ := keyState_mem pre oa oe ev.m hx
-      have hev0 : ev0 ∈ forKey s (events adapters) := by rw [hsplit]; simp [hm0]
-      have hev : ev ∈ forKey s (events adapters) := by rw [hsplit]; simp
-      obtain ⟨b0, hadm0, he0, hmv0, hle0, _⟩ := offers_spec adapters L hl s ev0 hev0
-      obtain ⟨b, hadm1, he1, hmv1, hle1, _⟩ := offers_spec adapters L hl s ev hev
-      have hee : ev0.e = ev.e := by omega
-      have := hdistinct _ _ _ _ hadm0 hadm1 (by rw [← he0, ← he1, hee])
-      rw [hsplit, List.pairwise_append] at hpw
-      exact hpw.2.2 ev0 hm0 ev (by simp) this
-  have hfin := (makeIndex_get? ops hlaw adapters isPrefix s).2.2
-  rw [hamb] at hfin
-  simp only [Bool.false_eq_true, if_false] at hfin
-  rw [hfin]
+  have hdi := hamming_le_length s a.seq
+  -- every offer with as many matches as adapter i's comes from adapter i
+  have honly : ∀ ev ∈ forKey s (events adapters), L - Spec.hamming (· == ·) s a.seq ≤ ev.m → ev.ai = i := by
+    intro ev hev hm
+    obtain ⟨b, hadmb, heb, hmb, hleb, _⟩ := offers_spec adapters L hl s ev hev
+    apply Classical.byContradiction
+    intro hne
+    have := hstrict _ _ hadmb hne
+    omega
   cases hks : (keyState (forKey s (events adapters))).1 with
   | none =>
     have := (keyState_none_iff _).mp hks
@@ -307,13 +282,38 @@ theorem nearest_entry {D : Type} (ops : DictOps D) (hlaw : ops.Lawful) (adapters
     obtain ⟨aj, e, m⟩ := en
     obtain ⟨ev, hev, h1, h2, h3⟩ := keyState_mem _ aj e m hks
     obtain ⟨b, hadmb, heb, hmb, hleb, _⟩ := offers_spec adapters L hl s ev hev
-    have hmax := keyState_max _ aj e m hks _ hmine
-    simp only at hmax
-    have hn := hnear _ _ hadmb
-    have hdi := hamming_le_length s a.seq
-    have heq : Spec.hamming (· == ·) s b.seq = Spec.hamming (· == ·) s a.seq := by omega
-    have hji := hdistinct _ _ _ _ hadmb hadm heq
+    have hmax := keyState_max _ aj e m hks
+    have hmaxi := hmax _ hmine
+    simp only at hmaxi
+    have hji : ev.ai = i := honly ev hev (by omega)
+    have hba : b = a := by
+      have h1' := hadmb.1
+      rw [hji, hadm.1] at h1'
+      exact (Option.some.inj h1').symm
+    subst hba
+    -- the best number of matches was offered once: never (finally) marked
+    have hflag : (keyState (forKey s (events adapters))).2 = false := by
+      cases hb : (keyState (forKey s (events adapters))).2 with
+      | false => rfl
+      | true =>
+        exfalso
+        have h2le := (keyState_amb_iff _ aj e m hks).mp hb
+        unfold cntM at h2le
+        have hpwF := List.Pairwise.filter (fun ev : Ev => ev.m == m) hpw
+        obtain ⟨x, y, rest, hF⟩ := two_le_length _ h2le
+        · rw [hF, List.pairwise_cons] at hpwF
+          have hx : x ∈ (forKey s (events adapters)).filter (fun ev => ev.m == m) := by rw [hF]; simp
+          have hy : y ∈ (forKey s (events adapters)).filter (fun ev => ev.m == m) := by rw [hF]; simp
+          have hxm : x.m = m := by simpa using (List.mem_filter.mp hx).2
+          have hym : y.m = m := by simpa using (List.mem_filter.mp hy).2
+          have hxi := honly x (List.mem_filter.mp hx).1 (by omega)
+          have hyi := honly y (List.mem_filter.mp hy).1 (by omega)
+          exact hpwF.1 y (by simp) (hxi.trans hyi.symm)
+    have hfin := (makeIndex_get? ops hlaw adapters isPrefix s).2.2
+    rw [hflag] at hfin
+    simp only [Bool.false_eq_true, if_false] at hfin
+    rw [hfin, hks]
     subst h1 h2 h3
-    rw [hji, heb, hmb, heb, heq]
+    rw [hji, heb, hmb, heb]
 
 end Cutadapt.Index
